@@ -161,12 +161,36 @@ def tr(pattern, top=False):
     return not_after, seq_of(parts)
 
 
+def case_close(r):
+    """re.IGNORECASE for ASCII letters: every class also accepts the other case"""
+    t = r[0]
+    if t == 'cls':
+        rs = list(r[2])
+        for lo, hi in r[2]:
+            if hi >= 0x80:
+                if r[1] and lo <= 0x7f:
+                    continue
+                raise Unsupported('ignore-case over non-ASCII range')
+            for c in range(lo, hi + 1):
+                ch = chr(c)
+                if ch.isalpha():
+                    o = ord(ch.swapcase())
+                    rs.append((o, o))
+        return ('cls', r[1], tuple(sorted(set(rs))))
+    if t in ('eps', 'ahead'):
+        return r
+    return (t,) + tuple(case_close(x) for x in r[1:])
+
+
 def regex_to_re(pattern_text, flags=re.U):
     tree = P.parse(pattern_text, flags)
-    if tree.state.flags & (re.I | re.S | re.M | re.X):
+    if tree.state.flags & (re.S | re.M | re.X):
         raise Unsupported('flags')
     # a top-level non-capturing group wrapper is flattened by the parser already
-    return tr(tree, top=True)
+    na, r = tr(tree, top=True)
+    if tree.state.flags & re.I:
+        r = case_close(r)
+    return na, r
 
 
 # ---------------------------------------------------------------- emission with sharing
@@ -325,7 +349,49 @@ def esc_types():
     raise Unsupported('escape-type tuple not found in tokenize2.py')
 
 
-GENERATORS = {'Productions.lean': gen_productions}
+def gen_names():
+    """known property names with the DOM attribute the code derives and the property name that
+    assigning that attribute actually sets (observed on a real CSSStyleDeclaration)"""
+    import logging
+    import css_parser
+    from css_parser import profiles
+    from css_parser.css import cssproperties as cp
+    css_parser.log.setLevel(logging.FATAL)
+    em = Emitter('n')
+    to_dom = regex_to_re(cp._reCSStoDOMname.pattern, cp._reCSStoDOMname.flags)
+    to_css = regex_to_re(cp._reDOMtoCSSname.pattern, cp._reDOMtoCSSname.flags)
+    if to_dom[0] is not None or to_css[0] is not None:
+        raise Unsupported('look-behind in name regexes')
+    rows = []
+    seen = set()
+    for g in profiles.properties:
+        for n in profiles.properties[g]:
+            if n in seen:
+                continue
+            seen.add(n)
+            d = cp._toDOMname(n)
+            st = css_parser.css.CSSStyleDeclaration()
+            try:
+                setattr(st, d, 'inherit')
+                eff = st.item(0)
+            except Exception as e:
+                eff = '!' + type(e).__name__
+            rows.append((n, d, eff))
+    out = ['-- GENERATED by harness/gen_tables.py from /repo — do not edit',
+           'import CssVerif.Model.Decl', 'namespace CssVerif.Gen', 'open CssVerif CssVerif.Decl', '']
+    a, b = em.emit(to_dom[1]), em.emit(to_css[1])
+    for name, sdef in em.defs:
+        out.append('def %s : Re := %s' % (name, sdef))
+    out.append('def aliasRows : List AliasRow := [')
+    out.append(',\n'.join('  { css := %s, dom := %s, eff := %s }' % (lean_text(n), lean_text(d), lean_text(e))
+                          for n, d, e in rows))
+    out.append(']')
+    out.append('def nameTables : NameTables := { cssToDom := %s, domToCss := %s, rows := aliasRows }' % (a, b))
+    out.append('end CssVerif.Gen')
+    return '\n'.join(out) + '\n'
+
+
+GENERATORS = {'Productions.lean': gen_productions, 'Names.lean': gen_names}
 
 
 def main():
